@@ -1,4 +1,5 @@
 """C19 — producing output is a pure observation of parser state."""
+import os
 import gen
 from histcheck import run_cases, step_summary
 from props.evalcommon import standard_run, standard_replay
@@ -208,7 +209,71 @@ def run(rep):
                  "by the model (pure function of the merge history) and directly on the implementation: repeated outputs equal, "
                  "Documents() unchanged across output calls, and the twin history without intermediate output calls ends "
                  "identically; non-trivial = an output call happens before a later merge or snapshot", oracle=oracle, batch_aux=batch_aux)
+    if len(rep.violations) < 5:
+        import random
+        file_history_stage(rep, random.Random(rep.seed + 7), 80 if rep.tier == "quick" else 2000)
+
+
+def file_history_stage(rep, rng, n):
+    """histories over FILES: inputs loaded one after the other with output requests in between (every spelling of a format name,
+    unknown names included) against the same history without them - what a later MergeFileLayers finds and produces is the same"""
+    import shutil
+    import fscheck
+    from common import run_go, mktemp_dir
+    root = mktemp_dir("verif-c19-files-")
+    try:
+        ops, cases = [], []
+        for i in range(n):
+            ext2 = rng.choice(["YAML", "Yaml", "JSON", "Json", "TOML", "yaml", "json"])
+            layout = {"a." + ext2: {"fmt": ext2.lower(), "docs": [{"base": 1, "l": [1]}]},
+                      "a.b.yaml": {"fmt": "yaml", "docs": [{"top": 1}]},
+                      "c.json": {"fmt": "json", "docs": [{"c": 1, "e": {"$encode": rng.choice(["json", "Json", "YAML", "base64"]), "$value": {"k": 1}}}]},
+                      "d.yaml": {"fmt": "yaml", "docs": [{"d": 1}]}}
+            d = os.path.join(root, "c%d" % i)
+            os.makedirs(d)
+            fscheck.materialise(d, layout)
+            inputs = rng.sample(["c.json", "d.yaml", "a.b.yaml"], rng.randint(2, 3))
+            if "a.b.yaml" not in inputs:
+                inputs.append("a.b.yaml")
+            acts_plain = [{"input": os.path.join(d, x)} for x in inputs]
+            acts_out = []
+            for a in acts_plain:
+                if rng.random() < 0.7:
+                    acts_out.append({"out": rng.choice(["yaml", "YAML", "Yaml", "json", "JSON", "Json", "TOML", "toml", "nosuch", "json-pretty"])})
+                acts_out.append(a)
+            ops.append({"op": "files", "id": 2 * i, "dir": d, "actions": acts_plain})
+            ops.append({"op": "files", "id": 2 * i + 1, "dir": d, "actions": acts_out})
+            cases.append({"layout": layout, "plain": [a.get("input", "").replace(d + "/", "") for a in acts_plain],
+                          "with_out": [(a.get("input", "").replace(d + "/", "") or {"out": a.get("out")}) for a in acts_out]})
+        go = run_go(ops, timeout_ms=60000)
+        for i, c in enumerate(cases):
+            a, b = go.get(2 * i) or {}, go.get(2 * i + 1) or {}
+            rep.case(["file-history", c], True)
+            rep.count("file-history:" + ("err" if "err" in a else "ok"))
+            strip = lambda r: {k: v for k, v in r.items() if k not in ("id", "msg", "runs")}
+            if strip(a) != strip(b) and len(rep.violations) < 5:
+                rep.violation("output is not a pure observation: inputs loaded with output requests in between end differently from the same inputs without them",
+                              {"case": {"filehistory": c}, "without": str(a)[:600], "with": str(b)[:600]})
+    finally:
+        shutil.rmtree(root, ignore_errors=True)
 
 
 def replay(rep, payload):
+    if "filehistory" in payload.get("case", {}):
+        import shutil
+        import fscheck
+        from common import run_go, mktemp_dir
+        c = payload["case"]["filehistory"]
+        d = mktemp_dir("verif-c19-files-")
+        try:
+            fscheck.materialise(d, c["layout"])
+            act = lambda x: {"input": os.path.join(d, x)} if isinstance(x, str) else x
+            go = run_go([{"op": "files", "id": 0, "dir": d, "actions": [act(x) for x in c["plain"]]},
+                         {"op": "files", "id": 1, "dir": d, "actions": [act(x) for x in c["with_out"]]}], timeout_ms=60000)
+            strip = lambda r: {k: v for k, v in (r or {}).items() if k not in ("id", "msg", "runs")}
+            print("without:", str(go.get(0))[:500])
+            print("with   :", str(go.get(1))[:500])
+            return 1 if strip(go.get(0)) != strip(go.get(1)) else 0
+        finally:
+            shutil.rmtree(d, ignore_errors=True)
     return standard_replay(payload, oracle=oracle)
